@@ -485,38 +485,60 @@ func (e *Engine) callMerged(s *State, fr *Frame, fn *ssa.Function, args, bind []
 	if len(fins) <= 1 {
 		return separate()
 	}
-	conds := make([]*Term, len(fins))
 	floor := 0
-	for i, f := range fins {
-		ts := f.st.pcTerms()
-		conds[i] = And(ts[pcBase:]...)
+	for _, f := range fins {
 		if f.st.NextObj > floor {
 			floor = f.st.NextObj
 		}
 	}
-	for i := 1; i < len(fins); i++ {
-		if !e.sameOldHeap(baseNext, fins[0].st, fins[i].st) {
-			return separate()
+	condOf := func(st *State) *Term {
+		ts := st.pcTerms()
+		return And(ts[pcBase:]...)
+	}
+	// greedy grouping: each finisher is merged into the first group it is compatible with
+	type group struct {
+		m     *State
+		ret   Value
+		conds []*Term
+	}
+	var groups []*group
+	for _, f := range fins {
+		c := condOf(f.st)
+		placed := false
+		for _, g := range groups {
+			if !e.sameOldHeap(baseNext, g.m, f.st) {
+				continue
+			}
+			save := g.m.NextObj
+			if g.m.NextObj <= floor {
+				g.m.NextObj = floor + 1
+			}
+			mc := &mergeCtx{e: e, m: g.m, floor: floor}
+			// ite(c, f.ret, g.ret): f's cells live in f.st, g's in g.m
+			mv, ok := mc.merge(c, f.st, f.ret, g.m, g.ret)
+			if !ok {
+				g.m.NextObj = save
+				continue
+			}
+			g.ret = mv
+			g.conds = append(g.conds, c)
+			placed = true
+			break
+		}
+		if !placed {
+			groups = append(groups, &group{m: f.st, ret: f.ret, conds: []*Term{c}})
 		}
 	}
-	m := fins[0].st
-	m.NextObj = floor + 1
-	mc := &mergeCtx{e: e, m: m, floor: floor}
-	last := len(fins) - 1
-	merged := fins[last].ret
-	mergedSt := fins[last].st
-	for i := last - 1; i >= 0; i-- {
-		var ok bool
-		merged, ok = mc.merge(conds[i], fins[i].st, fins[i].ret, mergedSt, merged)
-		if !ok {
-			return separate()
+	out := others
+	for _, g := range groups {
+		if len(g.conds) > 1 {
+			g.m.PC = base.PC
+			g.m.addPC(Or(g.conds...))
 		}
-		mergedSt = m
+		finish(g.m, g.ret)
+		out = append(out, g.m)
 	}
-	m.PC = base.PC
-	m.addPC(Or(conds...))
-	finish(m, merged)
-	return nonNil(append(others, m))
+	return nonNil(out)
 }
 
 func nonNil(ss []*State) []*State {
@@ -560,6 +582,18 @@ func (mc *mergeCtx) cell(st *State, id int) (Value, bool) {
 		return mc.m.hget(id)
 	}
 	return st.hget(id)
+}
+
+func init() {
+	// pure helpers whose paths are joined into one ite-valued result (DESIGN 2.6 / 13.7)
+	sdk := "github.com/cosmos/cosmos-sdk/types."
+	MarkMergeable(sdk+"chopPrecisionAndRound", sdk+"chopPrecisionAndRoundUp", sdk+"chopPrecisionAndTruncate",
+		"("+sdk+"Dec).Mul", "("+sdk+"Dec).Quo", "("+sdk+"Dec).QuoInt64", "("+sdk+"Dec).MulInt64", "("+sdk+"Dec).MulInt",
+		"("+sdk+"Dec).QuoInt", "("+sdk+"Dec).TruncateInt", "("+sdk+"Dec).TruncateInt64", "("+sdk+"Dec).QuoTruncate", "("+sdk+"Dec).MulTruncate",
+		"("+sdk+"Dec).RoundInt", "("+sdk+"Dec).RoundInt64", "("+sdk+"Dec).Ceil",
+		"github.com/jackalLabs/canine-chain/v4/x/rns/keeper.GetCostOfName",
+		"github.com/jackalLabs/canine-chain/v4/x/rns/keeper.GetNameAndTLD",
+		"github.com/jackalLabs/canine-chain/v4/x/rns/keeper.GetSubdomain")
 }
 
 // merge builds ite(c, va, vb); pointers to fresh cells are merged by allocating a joined cell in m.
